@@ -1205,7 +1205,11 @@ pub fn decode_match(reader: &mut BitReader) -> Result<(Match, usize)> {
         }
         CompressionType::Far2Long => {
             let distance = reader.read_bits(16)? as u16;
-            let length = decode_variable_length(reader)? as u16 + MIN_FAR2_LONG_LENGTH as u16; // Add offset back
+            // Add offset back; the field can hold more than a u16 length, reject such input
+            let length = decode_variable_length(reader)?
+                .checked_add(MIN_FAR2_LONG_LENGTH as u32)
+                .and_then(|l| u16::try_from(l).ok())
+                .ok_or_else(|| ZiporaError::invalid_data("Far2Long length out of range"))?;
             Match::Far2Long { distance, length }
         }
         CompressionType::Far3Long => {
@@ -1242,7 +1246,14 @@ fn encode_variable_length(value: u32, writer: &mut BitWriter) -> Result<()> {
         // 11xxxxxxxxxxxxxxxxxxxxxxxxxxxxxxxxxxxxxx format (11 + 30 bits)
         writer.write_bits(1, 1)?;  // First bit: 1
         writer.write_bits(1, 1)?;  // Second bit: 1
-        writer.write_bits(value - 32768, 30)?; // Store as offset from 32768
+        let offset = value - 32768;
+        if offset >= (1 << 30) {
+            // would be truncated to 30 bits and decode to a different length
+            return Err(ZiporaError::invalid_data(
+                "Variable-length value exceeds the 30-bit field",
+            ));
+        }
+        writer.write_bits(offset, 30)?; // Store as offset from 32768
     }
     Ok(())
 }
